@@ -21,7 +21,7 @@ DAY = 86400
 META = dict(
     rule="for every test that documents missing-data handling x parameter sets (incl. every climatology member shape: "
          "{no depth span, depth span} x {absolute, month, week, dayofyear, quarter} x {fspan, none}, one- and "
-         "two-member lists): every series of length 0..N over {v1, v2, missing} with missing spelt NaN (ndarray) and "
+         "two-member lists): every series of length 0..N over {v1, v2, missing} with missing spelt NaN (ndarray), masked-with-999-underneath (masked array) and "
          "NaN/None (list), times the full product of presence masks of the auxiliary input (2^n depth masks for "
          "climatology/density; 4^n lon/lat presence pairs x 2 value patterns for location/speed). Oracle per position: "
          "missing observation -> flag in {MISSING} (+UNKNOWN where the test is undefined irrespective of the value: "
@@ -208,8 +208,10 @@ def run_task(task, acc):
         cfg = G.SPECS[name]["cfgs"][ci]
 
         def gen():
-            for how, al in (("nd", (0.0, 2.0, NAN)), ("list", (0.0, 2.0, NAN, None))):
+            for how, al in (("nd", (0.0, 2.0, NAN)), ("list", (0.0, 2.0, NAN, None)), ("ma", (0.0, 2.0, NAN))):
                 for x in alpha.all_seqs(al, 0, n + 1 if how == "nd" else n):
+                    if how == "ma" and not any(s == NAN for s in x):
+                        continue
                     if how == "list" and not any(s is None for s in x) and len(x) > 2:
                         continue  # the None-free lists only differ from the ndarray run by the carrier (C15)
                     yield dict(fn=name, cfg=cfg, x=list(x), how=how, secs=alpha.regular_secs(len(x)))
